@@ -96,6 +96,9 @@ type CRLSpec struct {
 	Exts             []pkix.Extension
 	Signer           crypto.Signer // nil => zero signature
 	BadSig           bool          // flip a bit of the signature value
+	// Forge: the signature value is a genuine signature of the signer's key, but not over the tbsCertList:
+	// "empty-digest" = over a digest of zero length, "digest-of-nothing" = over the digest of the empty octet string
+	Forge string
 }
 
 // ReasonExt is the reasonCode entry extension.
@@ -279,10 +282,18 @@ func (s *CRLSpec) sign(tbs []byte) []byte {
 		h := s.Alg.Hash.New()
 		h.Write(tbs)
 		digest := h.Sum(nil)
+		switch s.Forge {
+		case "empty-digest":
+			digest = []byte{}
+		case "digest-of-nothing":
+			digest = s.Alg.Hash.New().Sum(nil)
+		}
 		switch k := s.Signer.(type) {
 		case *rsa.PrivateKey:
 			if s.Alg.PSS {
 				sig, err = rsa.SignPSS(DetRand, k, s.Alg.Hash, digest, &rsa.PSSOptions{SaltLength: 32})
+			} else if len(digest) == 0 {
+				sig, err = rsa.SignPKCS1v15(DetRand, k, crypto.Hash(0), digest)
 			} else {
 				sig, err = rsa.SignPKCS1v15(DetRand, k, s.Alg.Hash, digest)
 			}
@@ -339,7 +350,7 @@ func (s *CRLSpec) cacheKey() string {
 		signer = fmt.Sprintf("%p", s.Signer)
 	}
 	tbs := s.TBS()
-	return fmt.Sprintf("%x|%s|%s|%v", sha(tbs), s.Alg.Name, signer, s.BadSig)
+	return fmt.Sprintf("%x|%s|%s|%v|%s", sha(tbs), s.Alg.Name, signer, s.BadSig, s.Forge)
 }
 
 func sha(b []byte) []byte {
